@@ -74,6 +74,14 @@ func unwrapA(wfk []byte, alg, name string, nonce, tag []byte) ([]byte, error) {
 	return kekUnwrap(0, wfk)
 }
 
+// refUnwrapA is the same honest recipient, for the reference implementation.
+func refUnwrapA(wfk []byte, kw int, name string) ([]byte, error) {
+	if kw != refenc.KWA256KW {
+		return nil, errors.New("vault: this key only does A256KW")
+	}
+	return kekUnwrap(0, wfk)
+}
+
 // ------------------------------------------------------------------ base documents
 
 type base struct {
@@ -215,6 +223,18 @@ func (m *mutant) equals(doc []byte) bool {
 		off += len(p)
 	}
 	return true
+}
+
+// head returns the first (at most n) bytes of the mutant.
+func (m *mutant) head(n int) []byte {
+	out := make([]byte, 0, min(n, m.length()))
+	for _, p := range m.parts {
+		if len(out)+len(p) > n {
+			return append(out, p[:n-len(out)]...)
+		}
+		out = append(out, p...)
+	}
+	return out
 }
 
 func (m *mutant) flatten() []byte {
@@ -385,11 +405,6 @@ func (j *judgeCtx) judge(m *mutant) {
 			rec.Count("skipped.mutant_equals_original", 1)
 			return
 		}
-		// however it was produced, "the header and nothing else" is the
-		// truncation at the header end
-		if len(b.doc) > b.hdr && m.equals(b.doc[:b.hdr]) {
-			m.class, m.pos = "truncate", "header-end"
-		}
 	}
 	j.n++
 	rec.Progress()
@@ -433,15 +448,45 @@ func (j *judgeCtx) judge(m *mutant) {
 			// legal: accepted, and exactly the original plaintext
 			rec.Count("outcome.accepted_identical_plaintext", 1)
 			rec.Count("accepted_identical."+site, 1)
-			if m.class != "unwrap" && len(b.pt) > 0 && !strings.HasPrefix(m.pos, "mac") {
-				rec.Observe("a document edited at " + m.pos + " (" + m.class + ") was accepted and decrypted to the identical plaintext")
+			if m.unwrap == nil {
+				// Does the independent implementation consider this header authentic?
+				// (Not judged: the letter of C02 allows an identical plaintext.)
+				switch v, _, _ := refenc.CheckHeader(m.head(70000), refUnwrapA); v {
+				case refenc.HeaderAuthentic:
+					rec.Count("accepted_identical.header_authentic_per_reference", 1)
+				case refenc.HeaderMACSpelling:
+					rec.Count("accepted_identical.mac_line_spelling_only", 1)
+				default:
+					rec.Count("accepted_identical_but_header_fails_reference_mac", 1)
+					rec.Observe("kit accepted a document edited at " + m.pos + " (" + m.class + ") whose header the reference implementation rejects; the plaintext was identical, so this is not judged")
+				}
 			}
 		case prefix:
-			if m.class == "truncate" && m.pos == "header-end" && len(o.got) == 0 && len(b.pt) > 0 {
-				// exactly: document cut right after its third header line, plaintext non-empty
-				rec.Violation(j.idx, "truncate@header-end/nonempty",
-					fmt.Sprintf("a document with a %d-byte plaintext cut right after its header decrypts to \"\" with a clean EOF [%s]", len(b.pt), b.String()), j.replay(m, o))
-				return
+			if m.unwrap == nil && len(o.got) == 0 {
+				// Nothing was released and the stream ended cleanly. If the mutant is "a header
+				// and no payload at all", the independent implementation decides what it is:
+				// an AUTHENTIC header (MAC over the raw first two lines verifies) followed by
+				// nothing is the known format-level finding - a document cut exactly after its
+				// third header line; a header the reference rejects is a different defect.
+				mb := m.head(70000)
+				if v, hl, why := refenc.CheckHeader(mb, refUnwrapA); hl == m.length() {
+					switch v {
+					case refenc.HeaderAuthentic:
+						rec.Count("payloadless_accepted.header_authentic", 1)
+						rec.Violation(j.idx, "truncate@header-end/nonempty",
+							fmt.Sprintf("a document with a %d-byte plaintext reduced to its (authentic) header decrypts to \"\" with a clean EOF [produced as %s: %s; %s]", len(b.pt), site, m.desc, b.String()), j.replay(m, o))
+						return
+					case refenc.HeaderMACSpelling:
+						// kit reads the MAC line leniently, the reference strictly: not judged
+						rec.Count("payloadless_accepted.mac_line_spelling_only", 1)
+						rec.Observe("kit and the reference implementation disagree on non-canonical spellings of the MAC line (stray CR, unused base64 bits: kit lenient, reference strict); with the payload removed kit returns \"\" and a clean EOF - same root as truncate@header-end/nonempty, not judged separately")
+						rec.Count("rejected_or_identical."+m.class, 1)
+						return
+					default:
+						viol("clean-eof-short", fmt.Sprintf("a header that the reference implementation rejects (%v) and no payload decrypts to \"\" with a clean EOF although the plaintext has %d bytes", why, len(b.pt)))
+						return
+					}
+				}
 			}
 			viol("clean-eof-short", fmt.Sprintf("the stream ended in a clean EOF after %d of %d plaintext bytes", len(o.got), len(b.pt)))
 			return
@@ -563,6 +608,7 @@ var families = []family{
 	{"unwrap", famUnwrap},
 	{"insert-delete", famInsertDelete},
 	{"field-edit", famFieldEdit},
+	{"header-edit+drop-payload", famHeaderDropPayload},
 	{"source-error", famSourceError},
 	{"compound", famCompound},
 }
@@ -803,12 +849,25 @@ func famInsertDelete(j *judgeCtx) {
 	}
 }
 
-func famFieldEdit(j *judgeCtx) {
-	b := j.b
+// hedit is an edited header (everything up to the payload).
+type hedit struct {
+	pos, desc string
+	hdr       []byte
+}
+
+const b64alphabet = "ABCDEFGHIJKLMNOPQRSTUVWXYZabcdefghijklmnopqrstuvwxyz0123456789+/"
+
+// headerEdits lists the semantic edits of the header: re-encodings of the
+// manifest that a JSON parser reads to the same values (white space, member
+// order, member-name case, escapes, duplicate and unknown members, unused
+// base64 bits), changes of every field's value, spellings of the MAC line, of
+// the scheme line and of the line structure.
+func (b *base) headerEdits() []hedit {
 	d := b.d
 	line1, man, macl := string(d.Lines[0]), string(d.Lines[1]), string(d.Lines[2])
+	var out []hedit
 	emit := func(pos, desc, l1, l2, l3 string) {
-		j.judge(&mutant{class: "field-edit", pos: pos, desc: desc, parts: [][]byte{[]byte(l1 + "\n" + l2 + "\n" + l3 + "\n"), b.payload()}})
+		out = append(out, hedit{pos, desc, []byte(l1 + "\n" + l2 + "\n" + l3 + "\n")})
 	}
 	field := func(key string) (refenc.Field, bool) {
 		for _, f := range d.Manifest.Fields {
@@ -827,21 +886,67 @@ func famFieldEdit(j *judgeCtx) {
 		return man[:s] + val + man[e:]
 	}
 	// re-encodings of the manifest that decode to the same values
-	emit("manifest.syntax", "space after the opening brace", line1, "{ "+man[1:], macl)
-	emit("manifest.syntax", "space after every comma", line1, strings.ReplaceAll(man, `,"`, `, "`), macl)
-	emit("manifest.syntax", "trailing space", line1, man+" ", macl)
-	emit("manifest.syntax", "tab before the manifest", line1, "\t"+man, macl)
+	emit("manifest.whitespace", "space after the opening brace", line1, "{ "+man[1:], macl)
+	emit("manifest.whitespace", "space after every comma", line1, strings.ReplaceAll(man, `,"`, `, "`), macl)
+	emit("manifest.whitespace", "space after every colon", line1, strings.ReplaceAll(man, `":`, `": `), macl)
+	emit("manifest.whitespace", "space before every comma and before the closing brace", line1, strings.ReplaceAll(man[:len(man)-1], `,"`, ` ,"`)+" }", macl)
+	emit("manifest.whitespace", "tab, CR and spaces inside the object", line1, "{\t"+strings.ReplaceAll(man[1:len(man)-1], `,"`, ",\r \"")+"\t}", macl)
+	emit("manifest.whitespace", "trailing space", line1, man+" ", macl)
+	emit("manifest.whitespace", "tab before the manifest", line1, "\t"+man, macl)
+	// member-name case (encoding/json matches member names case-insensitively)
+	for _, f := range d.Manifest.Fields {
+		up := strings.ToUpper(f.Key)
+		emit("manifest."+f.Key+"-case", fmt.Sprintf("member name %q written %q", f.Key, up), line1, strings.Replace(man, `"`+f.Key+`":`, `"`+up+`":`, 1), macl)
+		if len(f.Key) > 1 {
+			mixed := strings.ToUpper(f.Key[:1]) + f.Key[1:]
+			emit("manifest."+f.Key+"-case", fmt.Sprintf("member name %q written %q", f.Key, mixed), line1, strings.Replace(man, `"`+f.Key+`":`, `"`+mixed+`":`, 1), macl)
+		}
+		// escapes: in the member name, and (strings only) in the value
+		emit("manifest.escape", fmt.Sprintf("member name %q with its first letter as a \\u escape", f.Key), line1,
+			strings.Replace(man, `"`+f.Key+`":`, fmt.Sprintf(`"\u%04x%s":`, f.Key[0], f.Key[1:]), 1), macl)
+		if len(f.Raw) > 2 && f.Raw[0] == '"' {
+			s, e := f.Start-d.LineStart[1], f.End-d.LineStart[1]
+			emit("manifest.escape", fmt.Sprintf("first character of the value of %q as a \\u escape", f.Key), line1,
+				man[:s+1]+fmt.Sprintf(`\u%04x`, man[s+1])+man[s+2:e]+man[e:], macl)
+			if i := strings.IndexByte(man[s:e], '/'); i >= 0 {
+				emit("manifest.escape", fmt.Sprintf("a solidus in the value of %q escaped", f.Key), line1, man[:s+i]+`\/`+man[s+i+1:], macl)
+			}
+		}
+		// duplicates: the same member again (same value) at the end, and another value in front (the last one wins)
+		emit("manifest.duplicate-member", fmt.Sprintf("member %q repeated at the end with the same value", f.Key), line1,
+			man[:len(man)-1]+fmt.Sprintf(`,%q:%s}`, f.Key, f.Raw), macl)
+		other := `"zz"`
+		if f.Raw[0] != '"' {
+			other = "2"
+			if string(f.Raw) == "2" {
+				other = "1"
+			}
+		}
+		emit("manifest.duplicate-member", fmt.Sprintf("member %q with another value put in front (the original one comes last)", f.Key), line1,
+			fmt.Sprintf(`{%q:%s,`, f.Key, other)+man[1:], macl)
+		// unused trailing bits of the base64 values
+		if f.Key == "np" || f.Key == "wfk" {
+			s, e := f.Start-d.LineStart[1], f.End-d.LineStart[1]
+			val := man[s+1 : e-1]
+			if t := strings.TrimRight(val, "="); len(t) < len(val) {
+				c := strings.IndexByte(b64alphabet, t[len(t)-1])
+				emit("manifest."+f.Key+"-noncanonical-base64", "lowest unused bit of the last base64 character of "+f.Key+" set differently", line1,
+					man[:s+1]+t[:len(t)-1]+string(b64alphabet[c^1])+val[len(t):]+man[e-1:], macl)
+			}
+		}
+	}
+	emit("manifest.unknown-member", "unknown member put in front", line1, `{"x":{"y":[1,2]},`+man[1:], macl)
 	{
 		var ms []string
 		for i := len(d.Manifest.Fields) - 1; i >= 0; i-- {
 			f := d.Manifest.Fields[i]
 			ms = append(ms, fmt.Sprintf("%q:%s", f.Key, f.Raw))
 		}
-		emit("manifest.syntax", "members in reverse order", line1, "{"+strings.Join(ms, ",")+"}", macl)
+		emit("manifest.reorder", "members in reverse order", line1, "{"+strings.Join(ms, ",")+"}", macl)
 	}
-	emit("manifest.syntax", "unknown member appended", line1, man[:len(man)-1]+`,"x":1}`, macl)
-	emit("manifest.cph", "duplicate cph member appended", line1, man[:len(man)-1]+`,"cph":`+fmt.Sprint(3-d.Manifest.Cipher)+`}`, macl)
-	emit("manifest.k", "escaped spelling of the key name", line1, replaceField("k", `"c02\u002dkek"`), macl)
+	emit("manifest.unknown-member", "unknown member appended", line1, man[:len(man)-1]+`,"x":1}`, macl)
+	emit("manifest.duplicate-member", "cph member appended with the other cipher id", line1, man[:len(man)-1]+`,"cph":`+fmt.Sprint(3-d.Manifest.Cipher)+`}`, macl)
+	emit("manifest.escape", "escaped spelling of the key name", line1, replaceField("k", `"c02\u002dkek"`), macl)
 	emit("manifest.k", "key name changed", line1, replaceField("k", `"another-key"`), macl)
 	if f, ok := field("k"); ok && d.Manifest.Fields[0].Key == "k" && len(d.Manifest.Fields) > 1 {
 		emit("manifest.k", "key name removed", line1, "{"+man[f.End-d.LineStart[1]+1:], macl)
@@ -884,23 +989,77 @@ func famFieldEdit(j *judgeCtx) {
 	emit("mac", "MAC with one byte appended", line1, man, base64.StdEncoding.EncodeToString(append(append([]byte{}, d.MAC...), 0)))
 	emit("mac", "hex instead of base64", line1, man, hex.EncodeToString(d.MAC))
 	for i := 1; i < 4; i++ { // the last character carries 2 unused bits: non-canonical spellings of the same MAC
-		c := macl[42]
-		alphabet := "ABCDEFGHIJKLMNOPQRSTUVWXYZabcdefghijklmnopqrstuvwxyz0123456789+/"
-		v := strings.IndexByte(alphabet, c)
-		emit("mac", fmt.Sprintf("non-canonical trailing bits (+%d)", i), line1, man, macl[:42]+string(alphabet[(v&^3)|((v+i)&3)])+"=")
+		v := strings.IndexByte(b64alphabet, macl[42])
+		emit("mac", fmt.Sprintf("non-canonical trailing bits (+%d)", i), line1, man, macl[:42]+string(b64alphabet[(v&^3)|((v+i)&3)])+"=")
 	}
 	// scheme line
 	for _, v := range []string{"dapr.io/enc/v2", "dapr.io/enc/v1 ", "dapr.io/enc/v1\r", "DAPR.IO/ENC/V1", "dapr.io/enc/v", ""} {
 		emit("scheme-line", fmt.Sprintf("scheme line %q", v), v, man, macl)
 	}
 	// line structure
-	j.judge(&mutant{class: "field-edit", pos: "line-structure", desc: "CRLF line ends", parts: [][]byte{[]byte(line1 + "\r\n" + man + "\r\n" + macl + "\r\n"), b.payload()}})
-	j.judge(&mutant{class: "field-edit", pos: "line-structure", desc: "empty line after the scheme line", parts: [][]byte{[]byte(line1 + "\n\n" + man + "\n" + macl + "\n"), b.payload()}})
-	j.judge(&mutant{class: "field-edit", pos: "line-structure", desc: "empty line before the payload", parts: [][]byte{[]byte(line1 + "\n" + man + "\n" + macl + "\n\n"), b.payload()}})
-	j.judge(&mutant{class: "field-edit", pos: "line-structure", desc: "manifest and MAC swapped", parts: [][]byte{[]byte(line1 + "\n" + macl + "\n" + man + "\n"), b.payload()}})
-	j.judge(&mutant{class: "field-edit", pos: "line-structure", desc: "header repeated", parts: [][]byte{b.header(), b.header(), b.payload()}})
-	j.judge(&mutant{class: "field-edit", pos: "line-structure", desc: "manifest padded to push the header over 64 KiB",
-		parts: [][]byte{[]byte(line1 + "\n" + man + strings.Repeat(" ", 70000) + "\n" + macl + "\n"), b.payload()}})
+	out = append(out,
+		hedit{"line-structure", "CRLF line ends", []byte(line1 + "\r\n" + man + "\r\n" + macl + "\r\n")},
+		hedit{"line-structure", "empty line after the scheme line", []byte(line1 + "\n\n" + man + "\n" + macl + "\n")},
+		hedit{"line-structure", "empty line before the payload", []byte(line1 + "\n" + man + "\n" + macl + "\n\n")},
+		hedit{"line-structure", "manifest and MAC swapped", []byte(line1 + "\n" + macl + "\n" + man + "\n")},
+		hedit{"line-structure", "header repeated", append(append([]byte{}, b.header()...), b.header()...)},
+		hedit{"line-structure", "manifest padded to push the header over 64 KiB", []byte(line1 + "\n" + man + strings.Repeat(" ", 70000) + "\n" + macl + "\n")})
+	return out
+}
+
+func famFieldEdit(j *judgeCtx) {
+	b := j.b
+	for _, e := range b.headerEdits() {
+		j.judge(&mutant{class: "field-edit", pos: e.pos, desc: e.desc, parts: [][]byte{e.hdr, b.payload()}})
+	}
+}
+
+// famHeaderDropPayload: an edited header COMBINED with the removal of the
+// payload (all of it, or all but its first k bytes), for non-empty plaintexts.
+// An edited header that a reader accepts turns, together with "no segments",
+// into a silently shortened message even when the same header in front of the
+// intact payload would only reproduce the identical plaintext.
+func famHeaderDropPayload(j *judgeCtx) {
+	b := j.b
+	if len(b.pt) == 0 {
+		return
+	}
+	pl := b.payload()
+	keeps := []int{0, 1, 15, 16, 17, 100, len(pl) - 1}
+	if len(pl) > int(segLen) {
+		keeps = append(keeps, int(segLen), int(segLen)+1)
+	}
+	for _, e := range b.headerEdits() {
+		seen := map[int]bool{}
+		for _, k := range keeps {
+			if k < 0 || k >= len(pl) || seen[k] {
+				continue
+			}
+			seen[k] = true
+			class, desc := "header-edit+drop-payload", e.desc+"; all segments dropped"
+			if k > 0 {
+				class, desc = "header-edit+cut-payload", fmt.Sprintf("%s; payload cut to its first %d of %d bytes", e.desc, k, len(pl))
+			}
+			j.judge(&mutant{class: class, pos: e.pos, desc: desc, parts: [][]byte{e.hdr, pl[:k]}})
+		}
+	}
+	// every single-bit flip, one-byte insertion and deletion in the header, with the payload dropped
+	for off := 0; off < b.hdr; off++ {
+		for bit := 0; bit < 8; bit++ {
+			h := append([]byte(nil), b.header()...)
+			h[off] ^= 1 << bit
+			j.judge(&mutant{class: "bitflip+drop-payload", pos: b.posOf(off), desc: fmt.Sprintf("bit %d of header byte %d (%q) flipped; all segments dropped", bit, off, b.doc[off]), parts: [][]byte{h}})
+			if bit == 0 || mon.Thorough() {
+				j.judge(&mutant{class: "bitflip+cut-payload", pos: b.posOf(off), desc: fmt.Sprintf("bit %d of header byte %d flipped; payload cut to its first 17 bytes", bit, off), parts: [][]byte{h, pl[:min(17, len(pl)-1)]}})
+			}
+		}
+		for _, v := range []byte{'\n', '\r', ' ', '=', 'A', 0} {
+			h := append(append(append([]byte(nil), b.doc[:off]...), v), b.doc[off:b.hdr]...)
+			j.judge(&mutant{class: "insert+drop-payload", pos: b.posOf(off), desc: fmt.Sprintf("byte %#02x inserted before header offset %d; all segments dropped", v, off), parts: [][]byte{h}})
+		}
+		h := append(append([]byte(nil), b.doc[:off]...), b.doc[off+1:b.hdr]...)
+		j.judge(&mutant{class: "delete+drop-payload", pos: b.posOf(off), desc: fmt.Sprintf("header byte %d removed; all segments dropped", off), parts: [][]byte{h}})
+	}
 }
 
 func famSourceError(j *judgeCtx) {
@@ -954,9 +1113,8 @@ func famSourceError(j *judgeCtx) {
 	}
 }
 
-// famCompound: two mutations at once. The known header-end truncation is
-// judged on its own (famTruncate, famSegments); a compound that leaves no
-// payload at all is therefore not generated.
+// famCompound: two mutations at once (a compound that leaves a bare header is
+// classified like every other payload-less mutant, see judge).
 func famCompound(j *judgeCtx) {
 	b := j.b
 	ns := len(b.d.Segments)
@@ -1031,11 +1189,6 @@ func famCompound(j *judgeCtx) {
 			doc = append(doc, j.rng.Bytes(nn)...)
 			c2, p2, d2 = "extend", "end", fmt.Sprintf("%d random bytes appended", nn)
 		}
-		if len(doc) == b.hdr {
-			// "a complete header and no payload": see the function comment
-			rec.Count("skipped.compound_without_payload", 1)
-			continue
-		}
 		before := j.n
 		j.judge(&mutant{class: "compound(" + c1 + "+" + c2 + ")", pos: p1 + "+" + p2, desc: d1 + "; then " + d2, parts: [][]byte{doc}})
 		if j.n > before {
@@ -1059,15 +1212,19 @@ func TestCheck(t *testing.T) {
 		"A case index = (base document, mutation family); the families are: bit flip of every bit of every header byte; bit flips at first/middle/last body byte, every tag byte and seeded bytes of every segment; "+
 		"truncation at every offset (documents <= 1 KiB) or every header offset, +-20 around every structural boundary and seeded offsets; extension by {1,15,16,17,65551,65552,65553} bytes (zeros, random, own bytes); "+
 		"segment delete/duplicate/append/swap/drop-tail/drop-head for every segment; splices with a same-length document under the same and under another key-encryption key (payload, header, MAC line, manifest, single segment, tag, body); "+
-		"nine misbehaving unwrap callbacks; one-byte insertions (7 values) and deletions at every header offset and at segment landmarks; ~60 semantic header edits (JSON re-encodings, field changes, MAC line spellings, line structure); "+
+		"nine misbehaving unwrap callbacks; one-byte insertions (7 values) and deletions at every header offset and at segment landmarks; ~110 semantic header edits (JSON re-encodings that parse to the same values: white space, member order, member-name case, \\u escapes, duplicate and unknown members, unused base64 bits of np/wfk; changes of every field; MAC-line spellings; scheme line; line structure); "+
+		"for non-empty plaintexts every one of these header edits, every single-bit flip and every one-byte insertion/deletion of the header COMBINED with dropping all segments or keeping only the first k payload bytes; "+
 		"sticky source-reader errors at every header offset, around every boundary, mid-segment, in place of the final EOF, each alone and together with the last data; seeded compound mutations. "+
 		"Huge tamper cases (after the ordinary ones, each run by one child; quick: AES-GCM, thorough: both ciphers): kit.Encrypt of a generated 4 GiB + 128 KiB + 100 byte plaintext (65539 segments, every one different) is streamed to a scratch file, then (a) segment 65536 is replaced by a copy of segment 0 and (b) segments 1 and 65537 are swapped, the tampered document is streamed through kit.Decrypt and the released bytes are compared position by position with the generator - the only mutants in which segment numbers differ in the upper half of the nonce's 32-bit counter. "+
 		"Every mutant is decrypted by the real kit.Decrypt through an all-at-once or seeded-chunk reader and read to the end. Rule: Decrypt error OR non-EOF stream error OR (bytes == plaintext AND EOF), and the released bytes are a prefix of the plaintext; "+
-		"for a source error an error is mandatory. Mutants equal to the original are skipped. Evaluations = mutants judged; enumerated families are distinct by construction, seeded compound mutants are keyed by their description; non-trivial = every mutant (it differs from the original or carries a fault).")
+		"for a source error an error is mandatory. A payload-less mutant that kit turns into \"\" + clean EOF is classified by the independent implementation (refenc.CheckHeader: does the MAC over the raw first two lines verify?): authentic header = the known format-level finding truncate@header-end/nonempty; header rejected by the reference = a violation with the mutation's own signature; only the MAC-line spelling differs (kit lenient, reference strict) = observed, not judged. Accepted mutants with identical plaintext whose header the reference rejects are counted (accepted_identical_but_header_fails_reference_mac), not judged. Mutants equal to the original are skipped. Evaluations = mutants judged; enumerated families are distinct by construction, seeded compound mutants are keyed by their description; non-trivial = every mutant (it differs from the original or carries a fault).")
 	rec.Note("require", []string{"outcome.decrypt_error", "outcome.stream_error", "outcome.stream_error_after_authentic_prefix", "outcome.accepted_identical_plaintext",
 		"srcerr.surfaced", "truncate.at.segment-boundary", "truncate.at.header-end", "truncate.at.segment-tag", "truncate.at.segment-body", "srcerr.at.final-eof", "srcerr.at.final-eof+data",
 		"rejected_or_identical.seg-swap", "rejected_or_identical.splice-samekek", "rejected_or_identical.splice-otherkek", "rejected_or_identical.unwrap", "rejected_or_identical.extend",
-		"huge.tamper_rejected.seg-replace", "huge.tamper_rejected.seg-swap", "huge.rejected_exactly_at_segment_65536"})
+		"huge.tamper_rejected.seg-replace", "huge.tamper_rejected.seg-swap", "huge.rejected_exactly_at_segment_65536",
+		"rejected_or_identical.header-edit+drop-payload", "rejected_or_identical.header-edit+cut-payload", "rejected_or_identical.bitflip+drop-payload", "payloadless_accepted.header_authentic"})
+	rec.Count("accepted_identical_but_header_fails_reference_mac", 0)
+	rec.Count("payloadless_accepted.mac_line_spelling_only", 0)
 	var plan []caseSpec
 	for bi := range specs {
 		for fi := range families {
